@@ -141,7 +141,7 @@ def cleanup_nodes():
 
 
 OMIT_WINDOW = 1e6       # seconds: every announcement of an unchanged value (without a pending error) is omitted
-OMIT_MODELLED = {'floatenum', 'limits'}   # families whose model covers the omission of unchanged updates (the others: judged only)
+OMIT_MODELLED = {'floatenum', 'limits', 'control'}   # families whose model covers the omission of unchanged updates (the others: judged only)
 
 
 def pending(pobj):
@@ -1125,7 +1125,9 @@ def impl_control(case):
                 evs.append(['act', int(mod[2:]), bool(msg[2][0])])
         conn.msgs.clear()
         return {'cb': [cb_of(o, outs[o].controlled_by.name) for o in range(nout)],
-                'act': [bool(m.control_active) for m in ins], 'evs': evs, 'ok': ok}
+                'act': [bool(m.control_active) for m in ins],
+                'cbP': [pending(m.parameters['controlled_by']) for m in outs],
+                'actP': [pending(m.parameters['control_active']) for m in ins], 'evs': evs, 'ok': ok}
 
     trace = [snapshot(True)]
     for op in case['ops']:
@@ -1225,7 +1227,8 @@ def prepare(case):
     if kind == 'control':
         trace = impl_control(case)
         ops = wire_control_ops(case)
-        return trace, {'p': 'C18', 'k': 'control', 'nout': case['nout'], 'outs': case['outs'], 'ops': ops}, \
+        return trace, {'p': 'C18', 'k': 'control', 'nout': case['nout'], 'outs': case['outs'], 'omit': bool(case.get('omit')),
+                       'cbP0': trace[0]['cbP'], 'actP0': trace[0]['actP'], 'ops': ops}, \
             {'p': 'C18', 'k': 'judge_control', 'nout': case['nout'], 'outs': case['outs'], 'ops': ops,
              'trace': [{'cb': t['cb'], 'act': t['act']} for t in trace]}, trace
     raise ValueError(kind)
@@ -1245,7 +1248,7 @@ def impl_obs(case, canon):
     if kind == 'struct':
         return [{k: t[k] for k in ('struct', 'mem', 'evs', 'ok', 'exc')} for t in canon]
     if kind == 'control':
-        return [{k: t[k] for k in ('cb', 'act', 'evs', 'ok')} for t in canon]
+        return [{k: t[k] for k in ('cb', 'act', 'cbP', 'actP', 'evs', 'ok')} for t in canon]
     return canon
 
 
